@@ -36,7 +36,29 @@ def gen_case(rng, big):
         n = rng.randint(3, 99)
         L = rng.randint(10, 300)
     seqs = gen.family(rng, n, L, alpha, shape, rng.choice([0.1, 0.25]), rng.choice([0.03, 0.08]), rng.choice([1, 4, 12]))
-    if not big and rng.random() < 0.25:
+    if not big and rng.random() < 0.15:
+        # two families of 16..30 members each: within a family nearly all members have the same length and no indels relative to each other (so many
+        # members carry identical gap vectors when the families meet), the families differ by a deletion and an insertion at different places,
+        # and part of the second family has one more short deletion
+        shape = "two_equal_length_families"
+        L = rng.randint(60, 200)
+        ra = gen.rand_seq(rng, L, alpha)
+        k = rng.randint(2, 8)
+        p1, p2 = sorted(rng.sample(range(8, L - 8 - k), 2))
+        rb = list(ra[:p1] + ra[p1 + k:])
+        rb[p2:p2] = [rng.choice(alpha) for _ in range(k)]
+        rb = "".join(rng.choice(alpha) if rng.random() < 0.15 else c for c in rb)
+        sub = lambda r_, pr: "".join(rng.choice(alpha) if rng.random() < pr else c for c in r_)
+        fa_ = [sub(ra, 0.04) for _ in range(rng.randint(16, 30))]
+        fb_ = []
+        for _ in range(rng.randint(16, 30)):
+            x_ = sub(rb, 0.04)
+            if rng.random() < 0.5:
+                d_ = rng.randint(10, len(x_) - 10)
+                x_ = x_[:d_] + x_[d_ + rng.randint(1, 5):]
+            fb_.append(x_)
+        seqs = fa_ + fb_
+        rng.shuffle(seqs)
         # indels right next to the sequence ends (a gap run directly before the last / after the first residue)
         out = []
         for s_ in seqs:
@@ -216,7 +238,7 @@ def run(ck, tier):
     nex = int((24 if tier == "quick" else 300) * sc)
     jobs += [(300000 + i, "exits") for i in range(nex)]
     common.pmap(lambda j: run_exits(ck, paths, j[0]) if j[1] == "exits" else run_case(ck, paths, j[0], j[1], rel), jobs, workers=10)
-    ck.rule = ("families over balanced/caterpillar/star/random trees with 3..99 (UPGMA) and 100..600 (k-means) sequences, all types, default and user penalties, "
+    ck.rule = ("families over balanced/caterpillar/star/random trees and pairs of equal-length families of 16..30 members with 3..99 (UPGMA) and 100..600 (k-means) sequences, all types, default and user penalties, "
                "threads 1/4/16 with injected delays; for every internal guide-tree node the hook runtime snapshots the members' gap vectors at completion and, "
                "after kalign_run, checks rank_U(final column) == column at completion for every residue of every member and |U| == group length. "
                "Exits: the rows returned by kalign() and written by the CLI are compared with the monitored msa (incl. fragments of long sequences, gap runs > 256). "
